@@ -271,6 +271,10 @@ pub use error::{Error, ErrorKind, Result};
 mod client;
 mod server;
 mod stream;
+#[cfg(varlink_rust_verif)]
+pub mod verif;
+#[cfg(varlink_rust_verif)]
+pub use crate::server::VerifPool;
 #[cfg(test)]
 mod test;
 
@@ -1047,6 +1051,8 @@ where
 
     fn send(&mut self, oneway: bool, more: bool, upgrade: bool) -> std::result::Result<(), MError> {
         {
+            #[cfg(varlink_rust_verif)]
+            crate::verif::probe(crate::verif::Point::ClientWantLock);
             let mut conn = self.connection.write().unwrap();
             let mut req = match (self.method.take(), self.request.take()) {
                 (Some(method), Some(request)) => Request::create(
@@ -1130,6 +1136,8 @@ where
             Some(true) => self.continues = true,
             _ => {
                 self.continues = false;
+                #[cfg(varlink_rust_verif)]
+                crate::verif::probe(crate::verif::Point::ClientWantLock);
                 let mut conn = self.connection.write().unwrap();
                 conn.reader = self.reader.take();
                 conn.writer = self.writer.take();
